@@ -6,6 +6,7 @@
 -/
 import PydapModel.Dap4
 import Proofs.Dap4
+import Proofs.Dap4Cut
 import Proofs.DmrOrder
 import Proofs.Dap4Index
 import Proofs.SliceTuple
@@ -42,14 +43,49 @@ theorem C10_dechunk (little : Bool) (payload : Bytes) (chunks : List Bytes) (jun
   rw [← hpart]
   exact stream2bytearray_encode little chunks hsize junk hne
 
+/-- **Cut streams are refused** (since fix 72d8e7c), in general: for every partition of a payload into chunks of
+    fewer than 2^24 bytes (at least one chunk, empty chunks allowed, either byte-order flag) *every proper prefix* of
+    the chunked stream — cut inside a chunk header, inside a chunk body, at a chunk boundary before the chunk flagged
+    `last`, or before the first byte — raises `EOFError`; nothing shorter than the whole stream decodes.
+    (Until round 7 this name stood for four sample streams; they are the `example`s below.) -/
+theorem C10_truncated_refused (little : Bool) (chunks : List Bytes) (hsize : ∀ c ∈ chunks, c.length < 2 ^ 24)
+    (hne : chunks ≠ []) (p : Bytes) (hp : p <+: chunkEncode little chunks) (hcut : p ≠ chunkEncode little chunks) :
+    stream2bytearray true p = .error .eofError :=
+  stream2bytearray_cut little chunks hsize hne p hp hcut
+
+/-- … and **every stream `stream2bytearray` accepts is prefix-free**, conforming or not (unknown flag bits, bytes
+    after the last chunk, either host order): on a prefix of it the function returns the same buffer or raises
+    `EOFError` — never a shorter or different buffer.  (`EOFError` is the only exception the loop raises.) -/
+theorem C10_dechunk_prefix_free (hostLittle : Bool) (b p buf : Bytes)
+    (h : stream2bytearray hostLittle b = .ok buf) (hp : p <+: b) :
+    stream2bytearray hostLittle p = .ok buf ∨ stream2bytearray hostLittle p = .error .eofError :=
+  stream2bytearray_prefix_free hostLittle b p buf h hp
+
+/-- **A cut response is refused**: every proper prefix of a whole response (DMR chunk + data chunks; the DMR one the
+    parser accepts) — cut inside the first header, inside the DMR, inside a data chunk header or body, at a chunk
+    boundary — makes `UNPACKDAP4DATA` raise `EOFError`; no variable is decoded from it.  Together with
+    `C10_response` / `C10_response_document_order`: a response decodes to all the values sent or not at all. -/
+theorem C10_response_cut_refused (little : Bool) (layoutsOf : Bytes → Except Dap4.Err (List Layout))
+    (ls : List Layout) (dmr : Bytes) (chunks : List Bytes)
+    (hd : dmr.length < 2 ^ 24) (hl : layoutsOf dmr = .ok ls)
+    (hc : ∀ c ∈ chunks, c.length < 2 ^ 24) (hne : chunks ≠ []) (p : Bytes)
+    (hp : p <+: encodeResponse little dmr chunks) (hcut : p ≠ encodeResponse little dmr chunks) :
+    unpackResponse true layoutsOf p = .error .eofError :=
+  unpackResponse_cut little layoutsOf ls dmr chunks hd hl hc hne p hp hcut
+
+-- no data at all, a header cut short, a body cut short, no chunk flagged `last`
 set_option maxRecDepth 100000 in
-/-- since fix 72d8e7c a stream that ends early is refused instead of being decoded to a shorter payload:
-    no data at all, a header cut short, a body cut short, no chunk flagged `last` -/
-theorem C10_truncated_refused :
-    stream2bytearray true [] = .error .eofError
+example : stream2bytearray true [] = .error .eofError
     ∧ stream2bytearray true [4, 0, 0] = .error .eofError
     ∧ stream2bytearray true [5, 0, 0, 2, 7] = .error .eofError
     ∧ stream2bytearray true [4, 0, 0, 1, 7] = .error .eofError := ⟨rfl, rfl, rfl, rfl⟩
+-- the hypotheses are satisfiable: [4,0,0,1,7] is a proper prefix of the stream of the chunks [[7],[8]]
+example : ([4, 0, 0, 1, 7] : Bytes) <+: chunkEncode true [[7], [8]] ∧ [4, 0, 0, 1, 7] ≠ chunkEncode true [[7], [8]] :=
+  ⟨⟨[5, 0, 0, 1, 8], by decide⟩, by decide⟩
+example : stream2bytearray true (chunkEncode true [[7], [8]]) = .ok [7, 8] := by decide
+-- a non-conforming stream (junk after the last chunk) that is accepted, and a prefix of it that still is
+example : stream2bytearray true [5, 0, 0, 1, 7, 9, 9] = .ok [7] ∧ stream2bytearray true [5, 0, 0, 1, 7, 9] = .ok [7] :=
+  ⟨by decide, by decide⟩
 
 /-- **Byte order**: an item of any width `w` (1, 2, 4, 8 in DAP4) written in either byte order and
     read with the same flag is the value written -/
